@@ -203,6 +203,10 @@ Definition parent_woken_by (c : ccfg) (parent : json) (rules : list (option rule
         end
     end) rules.
 
+(* onRelatedUpdate: the parents interested in the old state or in the new state are notified *)
+Definition woken_by_update (c : ccfg) (parent : json) (rules : list (option rule)) (old new : json) : bool :=
+  parent_woken_by c parent rules [old; new].
+
 (* ---------- the response cache (sequential view; entries live 20 minutes) ---------- *)
 Definition ckey := (string * Z)%type.        (* parent UID, parent generation *)
 Definition ckey_eqb (a b : ckey) : bool := String.eqb (fst a) (fst b) && Z.eqb (snd a) (snd b).
